@@ -595,21 +595,49 @@ theorem Sem_copyRetBuffer (env : Env) (var : Var) : Sem (copyRetBuffer env var) 
   sem
 
 
-/-- `sem`, remembering what `needTy` returned -/
-syntax "sem_ty" : tactic
 macro_rules
-  | `(tactic| sem_ty) => `(tactic| repeat' (first
-      | exact Sem_fail _
-      | exact Sem_nullDeref _
-      | (refine Sem.cast (by sem_leaf) ?_ ?_ ?_ <;> sem_arith)
-      | (refine Sem_needTy_bind (fun _ hty => ?_); simp only [hty, xOf_some] at *)
-      | (refine Sem_bind_td (by sem_leaf) (fun _ => ?_))
-      | dsimp only
-      | split
-      | (exfalso; simp_all; done)))
+  | `(tactic| sem_leaf) => `(tactic| exact Sem_copyRetBuffer _ _)
 
 theorem mem_zip_fst {α β : Type} {a : α} {b : β} {l1 : List α} {l2 : List β} (h : (a, b) ∈ l1.zip l2) : a ∈ l1 :=
   (List.of_mem_zip h).1
+
+theorem Sem_callTail (env : Env) (rb : Option Var) (ty : Ty) (st : Int) :
+    Sem (callTail env rb ty st) (8 * st) (xOf (some ty)) (-st) := by
+  unfold callTail
+  rw [xOf_some]
+  cases hk : ty.kind <;> simp only [reduceCtorEq, beq_self_eq_true, if_true, if_false] <;> sem
+
+/-- the arm after `push_args`, for both answers of `node->ret_buffer && node->ty->size > 16` -/
+theorem Sem_callRest (env : Env) (i : NInfo) {fn : M Unit} (rb : Option Var) (args : List Arg) (st pops : Int)
+    (hfn : Sem fn 0 0 0)
+    (hpop : Sem (popArgs env args (if bigV i rb = true then 1 else 0) 0) (8 * pops) 0 (-pops)) :
+    Sem (callRest env i fn rb args st)
+      (8 * (st + pops + (if bigV i rb = true then 1 else 0))) (xOf i.ty)
+      (-(st + pops + (if bigV i rb = true then 1 else 0))) := by
+  unfold callRest
+  refine Sem_bind_td hfn (fun _ => ?_)
+  refine (Sem_bind_ret (Sem_bigRet i rb) (Ret_bigRet i rb) (fun big hbig => ?_)).cast (r := 0 + _) (x := 0 + _)
+    (d := 0 + _) (Int.zero_add _) (Int.zero_add _) (Int.zero_add _)
+  subst hbig
+  have key : ∀ (gf : Int × Int), Sem (do
+      emit (ins2 "mov" rax (.r "%r10"))
+      emit (ins2 "mov" (.i gf.2) rax)
+      let ty ← needTy "node->ty" i.ty
+      callTail env rb ty st) (8 * st) (xOf i.ty) (-st) := by
+    intro gf
+    refine Sem_bind_td (Sem_emit rfl) (fun _ => ?_)
+    refine Sem_bind_td (Sem_emit rfl) (fun _ => ?_)
+    refine Sem_needTy_bind fun ty hty => ?_
+    rw [hty]
+    exact (Sem_callTail env rb ty st).cast (by omega) (by omega) (by omega)
+  cases hb : bigV i rb <;> simp only [hb, Bool.false_eq_true, if_false, if_true] at hpop ⊢ <;>
+    simp only [M_bind_assoc, M_pure_bind]
+  · exact (Sem_bind hpop key).cast (by omega) (by omega) (by omega)
+  · exact (Sem_bind (Sem_popGp 0) (fun _ => Sem_bind hpop key)).cast (by omega) (by omega) (by omega)
+
+-- try the hypotheses first: unifying an opaque sub-generator with `emit ?l` by `rfl` unfolds it
+macro_rules
+  | `(tactic| sem_leaf) => `(tactic| assumption)
 
 /-- **the call sequence is balanced**: for every argument list (struct arguments of at least one
     byte), whatever the callee expression, with or without a return buffer, for every parity of
@@ -640,61 +668,11 @@ theorem Sem_funcallArm (env : Env) (i : NInfo) {isAlloca : M Bool} {fn : M Unit}
     fun ab hab => hargs ab.1 (mem_zip_fst (b := ab.2) hab)
   have hp1 := Sem_pushArgs2 (args.zip flags) true hz
   have hp2 := Sem_pushArgs2 (args.zip flags) false hz
-  have hbr := Sem_bigRet i rb
+  have hrest := fun st => Sem_callRest env i rb args st (selSlots (args.zip flags) false) hfn hpop
   refine Sem_bind0 Sem_getDepth (fun depth => ?_)
-  -- the second evaluation of `node->ret_buffer && node->ty->size > 16` gives the same answer
-  have hrest : ∀ (st' : Int) (al : Int), st' = stack + al →
-      Sem (do
-        fn
-        let big ← bigRet i rb
-        let gp0 : Int ← if big then do popGp 0; pure 1 else pure 0
-        let (_, fp) ← popArgs env args gp0 0
-        emit (ins2 "mov" rax (.r "%r10"))
-        emit (ins2 "mov" (.i fp) rax)
-        let ty ← needTy "node->ty" i.ty
-        if ty.kind == .ldouble then emit (.insA ⟨"call", [.s "*%r10"]⟩ "ret:f80")
-        else emit (ins1 "call" (.s "*%r10"))
-        emit (ins2 "add" (.i (st' * 8)) rsp)
-        addDepth (-st')
-        match ty.kind with
-        | .bool => emit (ins2 "movzx" (.r "%al") (.r "%eax"))
-        | .char =>
-          if ty.isUnsigned then emit (ins2 "movzbl" (.r "%al") (.r "%eax"))
-          else emit (ins2 "movsbl" (.r "%al") (.r "%eax"))
-        | .short =>
-          if ty.isUnsigned then emit (ins2 "movzwl" (.r "%ax") (.r "%eax"))
-          else emit (ins2 "movswl" (.r "%ax") (.r "%eax"))
-        | _ =>
-          match rb with
-          | some rb =>
-            if ty.size ≤ 16 then do
-              copyRetBuffer env rb
-              emit (ins2 "lea" (rbp (env.off rb)) rax)
-            else pure ()
-          | none => pure ())
-        (8 * (al + stack + selSlots (args.zip flags) false + (if bigV i rb = true then 1 else 0)))
-        (xOf i.ty)
-        (-(al + stack + selSlots (args.zip flags) false + (if bigV i rb = true then 1 else 0))) := by
-    intro st' al hst'
-    subst hst'
-    refine Sem_bind_td hfn (fun _ => ?_)
-    refine (Sem_bind_ret hbr (Ret_bigRet i rb) (fun big hbig => ?_)).cast (r := 0 + _) (x := 0 + _) (d := 0 + _)
-      (Int.zero_add _) (Int.zero_add _) (Int.zero_add _)
-    subst hbig
-    have hcr := fun v => Sem_copyRetBuffer env v
-    cases hb : bigV i rb <;> simp only [hb, Bool.false_eq_true, if_false, if_true] at hpop ⊢ <;>
-      simp only [M_bind_assoc, M_pure_bind] <;> sem_ty
-  cases hb : bigV i rb <;> simp only [hb, Bool.false_eq_true, if_false, if_true] at hrest ⊢
-  · -- no return buffer in memory
-    split <;> simp only [M_bind_assoc, M_pure_bind]
-    · have := hrest (stack + 1) 1 rfl
-      sem
-    · have := hrest stack 0 (by omega)
-      sem
-  · split <;> simp only [M_bind_assoc, M_pure_bind]
-    · have := hrest (stack + 1) 1 rfl
-      sem
-    · have := hrest stack 0 (by omega)
-      sem
+  have h1 := hrest (stack + 1)
+  have h0 := hrest stack
+  cases hb : bigV i rb <;> simp only [hb, Bool.false_eq_true, if_false, if_true] at h0 h1 ⊢ <;>
+    split <;> simp only [M_bind_assoc, M_pure_bind] <;> sem
 
 end ChibiVerif.Lemmas.C20
